@@ -11,7 +11,8 @@ abstract oracle queries:
   c11.jws.sign  [str rawProtected, str payload] : str         (b64url of key.Sign(raw.payload))
   c11.jwe.seal  [str b64protected]              : [iv, ciphertext, tag] strs
   c11.jwe.decodeJSON [bytes] : obj|none   json.Decoder(UseNumber).Decode(&jsonJWE) re-rendered as
-        {protected, unprotected (obj|null), iv, ciphertext, tag, recipients:[{header (obj|null), encrypted_key}]}
+        {aad, ciphertext, iv, protected, tag, encrypted_key : str; unprotected, header : obj|null;
+         recipients : null | [{header (obj|null), encrypted_key}]}
 Compact serialisations are lists of segments (the split at the first 2 resp. 4 dots is done by
 the caller).
 -/
@@ -173,6 +174,7 @@ structure JweMsg where
   ciphertext : String
   tag : String
   recipients : List Recipient
+  aad : String := ""          -- b64aad: only a parsed JSON message can carry one
 deriving Inhabited
 
 /-- (*Header).Clone: nil gives a fresh empty header -/
@@ -211,47 +213,76 @@ def recipientObj (r : Recipient) : PO Wire := do
   let hdr ← encOptHeader jweEncodeHeader r.header
   pure (.obj ([("encrypted_key", Wire.str r.encKey)] ++ omitEmptyObj "header" hdr))
 
-/-- jwe (*Message).MarshalJSON (general JWE JSON serialisation only) -/
+/-- jwe (*Message).MarshalJSON (always the general syntax; `aad`, `iv`, `protected`, `tag`,
+    `unprotected` are `omitempty`) -/
 def jweMarshalJSON (m : JweMsg) : PO Wire := do
   let unprot ← encOptHeader jweEncodeHeader m.unprotected
   let rs ← mapPO recipientObj m.recipients
-  pure (.obj ([("ciphertext", Wire.str m.ciphertext)] ++ omitEmptyStr "iv" m.iv
-              ++ [("protected", .str m.b64protected), ("recipients", .arr rs)]
+  pure (.obj (omitEmptyStr "aad" m.aad ++ [("ciphertext", Wire.str m.ciphertext)] ++ omitEmptyStr "iv" m.iv
+              ++ omitEmptyStr "protected" m.b64protected ++ [("recipients", .arr rs)]
               ++ omitEmptyStr "tag" m.tag ++ omitEmptyObj "unprotected" unprot))
 
-/-- decodeHeader(map) where the map may be nil -/
-def jweDecodeOpt : Option Wire → PO Header
-  | some (.obj kvs) => jweDecodeHeader kvs
-  | _ => jweDecodeHeader []
+/-- a Go `map[string]any` that may be nil, as its list of members -/
+def mapMembers : Option Wire → List (String × Wire)
+  | some (.obj kvs) => kvs
+  | _ => []
 
-def parseRecipients : List Wire → PO (List Recipient)
+/-- `for name := range a { if _, ok := b[name]; ok { … } }` finds a common member name -/
+def sharesName (a b : List (String × Wire)) : Bool :=
+  a.any (fun kv => (Wire.lookup kv.1 b).isSome)
+
+/-- the loop over the recipients of ParseJSON: decodeHeader, crit only in the protected header,
+    names disjoint from the protected and the shared unprotected header (RFC 7516 §7.2.1) -/
+def parseRecipients (prot unprot : List (String × Wire)) : List Wire → PO (List Recipient)
   | [] => pure []
   | w :: rest => do
-    let h ← jweDecodeOpt (w.get? "header")
-    if h.crit.length > 0 then PO.fail "crit-unprotected" else do
+    let hm := mapMembers (w.get? "header")
+    let h ← jweDecodeHeader hm
+    if h.crit.length > 0 then PO.fail "crit-unprotected"
+    else if sharesName hm prot || sharesName hm unprot then PO.fail "duplicate" else do
       let k := ((w.get? "encrypted_key").getD .none).asStr
       let _ ← b64urlDecStr k
-      let rs ← parseRecipients rest
+      let rs ← parseRecipients prot unprot rest
       pure ({ header := some h, encKey := k } :: rs)
 
-/-- jwe.ParseJSON -/
+/-- jwe.ParseJSON (general and flattened syntax; `protected` may be absent) -/
 def jweParseJSON (data : Bytes) : PO JweMsg := do
   let raw ← PO.query "c11.jwe.decodeJSON" [.bytes data]
   match raw with
   | .obj o => do
     let str := fun (k : String) => ((Wire.lookup k o).getD .none).asStr
     let b64p := str "protected"
-    let pbytes ← b64urlDecStr b64p
-    -- unmarshalJSON(protected) then decodeHeader
-    let h ← jweUnmarshalHeader pbytes
-    let u ← jweDecodeOpt (Wire.lookup "unprotected" o)
-    if u.crit.length > 0 then PO.fail "crit-unprotected" else do
+    -- b64Decode + unmarshalJSON of the protected header, skipped when the member is empty / absent
+    let rawHeader ← (if b64p = "" then pure [] else do
+      let pbytes ← b64urlDecStr b64p
+      let j ← PO.query "json.decodeMap" [.bytes pbytes]
+      match j with
+      | .obj kvs => pure kvs
+      | .null => pure []
+      | _ => PO.fail "parse" : PO (List (String × Wire)))
+    let h ← jweDecodeHeader rawHeader
+    let um := mapMembers (Wire.lookup "unprotected" o)
+    let u ← jweDecodeHeader um
+    if u.crit.length > 0 then PO.fail "crit-unprotected"
+    else if sharesName um rawHeader then PO.fail "duplicate" else do
       let _ ← b64urlDecStr (str "ciphertext")
       let _ ← b64urlDecStr (str "iv")
       let _ ← b64urlDecStr (str "tag")
-      let rs ← parseRecipients ((Wire.lookup "recipients" o).getD .none).asArr
+      let _ ← b64urlDecStr (str "aad")
+      let topHeader := Wire.lookup "header" o
+      let topKey := str "encrypted_key"
+      let rws ← (match Wire.lookup "recipients" o with
+        | some (.arr l) =>
+            -- general syntax: the flattened members must not be there as well
+            if (match topHeader with | some (.obj _) => true | _ => false) || topKey ≠ "" then PO.fail "format"
+            else pure l
+        | _ =>
+            -- flattened syntax: exactly one recipient, its members at top level
+            pure [Wire.obj ([("encrypted_key", Wire.str topKey)] ++ optMember "header" topHeader)]
+        : PO (List Wire))
+      let rs ← parseRecipients rawHeader um rws
       pure { unprotected := some u, prot := some h, b64protected := b64p, iv := str "iv",
-             ciphertext := str "ciphertext", tag := str "tag", recipients := rs }
+             ciphertext := str "ciphertext", tag := str "tag", recipients := rs, aad := str "aad" }
   | _ => PO.fail "parse"
 
 /-- jwe (*Message).Compact -/
@@ -259,6 +290,7 @@ def jweCompact (m : JweMsg) : PO (List String) :=
   match m.recipients with
   | [r] =>
     if m.unprotected.isSome then PO.fail "compact-unprotected"
+    else if m.aad ≠ "" then PO.fail "compact-aad"
     else if r.header.isSome then PO.fail "compact-recipient-header"
     else pure [m.b64protected, r.encKey, m.iv, m.ciphertext, m.tag]
   | _ => PO.fail "format"
